@@ -62,6 +62,10 @@ def gen_cases(tier, seed):
     for i, plain_in in enumerate([(1,), (0,), (2,), (1, 2), ()]):
         cases.append({"id": "FC/%d" % i, "src": "fc", "plain_in": list(plain_in), "oseed": 40 + i})
         cases.append({"id": "FC/%d/no_created_by" % i, "src": "fc", "plain_in": list(plain_in), "oseed": 50 + i, "no_created_by": True})    # (the field is optional)
+    # files opened as one dataset that store the same columns in another order; the missing values are in the later file only
+    for i in range(6):
+        cases.append({"id": "CO/%d" % i, "src": "co", "nulls_in": ["x", "y", "z"][i % 3], "second_order": [["y", "x", "z"], ["z", "y", "x"], ["y", "z", "x"]][i // 3 if i < 6 else 0][:],
+                      "three_files": bool(i % 2), "oseed": 70 + i})
     return cases
 
 
@@ -111,6 +115,24 @@ def run_case(case):
                     res["outcome"] = "rejected"
                     counters["write_rejected"] = 1
                     return res
+        elif case["src"] == "co":
+            import os
+            path0 = C.fresh_path("")
+            os.makedirs(path0)
+            cleanup = True
+            oi = lambda vals: np.array(vals, dtype=object)
+            frames_ = [pd.DataFrame({"x": oi([1, 2, 3]), "y": oi([4, 5, 6]), "z": oi([True, False, True])})]
+            second = {"x": oi([7, 8, 9]), "y": oi([10, 11, 12]), "z": oi([False, False, True])}
+            second[case["nulls_in"]][1] = None
+            frames_.append(pd.DataFrame({c_: second[c_] for c_ in case["second_order"]}))
+            if case["three_files"]:
+                frames_.append(pd.DataFrame({c_: frames_[0][c_] for c_ in case["second_order"][::-1]}))
+            files_ = []
+            for j_, fr_ in enumerate(frames_):
+                files_.append(os.path.join(path0, "f%d.parquet" % j_))
+                fastparquet.write(files_[-1], fr_, object_encoding={"x": "int", "y": "int", "z": "bool"}, write_index=False)
+            path = files_
+            counters["file_sets_with_columns_in_another_order"] = 1
         elif case["src"] == "fc":
             import os
             from fastparquet import writer as FW_
@@ -263,10 +285,10 @@ def run_case(case):
                 except Exception as e:
                     counters["read_raised"] = counters.get("read_raised", 0) + 1
                     counters["read_raised:" + type(e).__name__] = counters.get("read_raised:" + type(e).__name__, 0) + 1
-                    if case["src"] == "fc" and not o:
+                    if case["src"] in ("fc", "co") and not o:
                         # a dataset built here to be valid, read with default options: the handle's answers (its categories among them)
                         # describe a read that does not exist
-                        res["failures"].append({"kind": "default_read_of_a_valid_dataset_raised", "src": "fc", "pandas_nulls": pandas_nulls,
+                        res["failures"].append({"kind": "default_read_of_a_valid_dataset_raised", "src": case["src"], "pandas_nulls": pandas_nulls,
                                                 "categories_answer": sorted(map(str, pf.categories)) if isinstance(pf.categories, (dict, list)) else str(pf.categories), **C.exc_shape(e)})
                     continue   # (otherwise) a failing read is C01/C03/C06's business
                 counters["optionsets_compared"] = counters.get("optionsets_compared", 0) + 1
@@ -369,7 +391,7 @@ def run_case(case):
         return res
     finally:
         if cleanup:
-            C.cleanup(path)
+            C.cleanup(path if not isinstance(path, list) else os.path.dirname(path[0]))
 
 
 def _answers(pf):
@@ -478,4 +500,4 @@ def _edited_handle(path, df, res, counters):
 
 
 def required(tier):
-    return {"optionsets_compared": 1500, "dtype_predictions": 5000, "pandas_nulls_false_compared": 500, "row_group_parts_predicted": 300, "reads_with_dtypes_mapping": 200, "edited_handle_steps_compared": 150, "files_with_nested_columns_before_flat_ones": 15, "edited_handle_appends_with_new_categories": 15, "edited_handle_appends_bringing_first_nulls": 5, "foreign_datasets_with_partly_dictionary_encoded_categoricals": 8, "handles_given_dtypes_compared": 300}
+    return {"optionsets_compared": 1500, "dtype_predictions": 5000, "pandas_nulls_false_compared": 500, "row_group_parts_predicted": 300, "reads_with_dtypes_mapping": 200, "edited_handle_steps_compared": 150, "files_with_nested_columns_before_flat_ones": 15, "edited_handle_appends_with_new_categories": 15, "edited_handle_appends_bringing_first_nulls": 5, "foreign_datasets_with_partly_dictionary_encoded_categoricals": 8, "handles_given_dtypes_compared": 300, "file_sets_with_columns_in_another_order": 4}
